@@ -15,6 +15,7 @@ CONFIG = dict(
     level_note="Trusted: Lean kernel, the harness/driver line protocol, reflect facts as dumped by the harness (Kind, Implements(IContext), "
                "AssignableTo, method sets), the serializer as an abstract function of (declared type, payload). The theorems are about the model; "
                "the differential run ties it to the code on sampled inputs only.",
+    gen=["cd /verif/harness && go1.26 run ./c13/extract -repo /repo -out /verif/lean/Cell2v/Gen/C13Registry.lean"],
     lean_targets=["Cell2v.Props.C13", "modeld_c13"],
     driver="modeld_c13",
     driver_root="Cell2v.Driver.C13",
@@ -23,18 +24,22 @@ CONFIG = dict(
                        "decodes_into_declared_type", "call_with_cb_completes_once_partial", "call_with_cb_completes_once_full_fails",
                        "never_completed_iff_notify_shaped", "no_escaping_panic", "call_without_cb_never_completes",
                        "malformed_route_error", "unknown_route_error", "undecodable_payload_error", "panicking_handler_error",
-                       "dispatch_request_answered_once_partial", "dispatch_notify_never_answered", "dispatch_unknown_route"],
+                       "dispatch_request_answered_once_partial", "dispatch_notify_never_answered", "dispatch_unknown_route",
+                       "registry_add_collection_atomic", "registry_same_name_same_collection", "registry_split_lookup_insert_loses"],
     harness_pkg="./c13",
     mode="diff",
     reset_prefix="reset",
     runs={
         "quick": [dict(name="main", env={"VERIF_N": "40000"}, timeout=240)],
-        "thorough": [dict(name="main", env={"VERIF_N": "800000"}, timeout=800),
+        "thorough": [dict(name="main", env={"VERIF_N": "800000", "VERIF_RACES": "3000"}, timeout=800),
                      dict(name="seed2", env={"VERIF_N": "400000"}, seed_offset=1000, timeout=800),
                      dict(name="seed3", env={"VERIF_N": "400000"}, seed_offset=2000, timeout=800)],
     },
     trivial=r"^(ok|0|valid=0|bad-op|n=0 |ran=- comps=(-|f:err)|ret=0 ran=- comps=(-|f:err#\d+))?$",
-    rule="corpus (D11 witness + one op per clause) first; bounded exhaustive: every synthetic method shape with <=3 (thorough: <=4) parameters over a pool "
+    rule="corpus (D11 witness + one op per clause + a registry race) first; registry concurrency stream: in every 5th case 2-4 goroutines call "
+         "Registry.AddCollection with the same fresh name inside a forced window (the harness holds the registry's write lock until the goroutine dump "
+         "shows all of them parked inside AddCollection, then releases it), each handle gets an entry of its own, Registry.Build(), then every handle is "
+         "asked for every route; the lock/lookup/insert structure of AddCollection is re-extracted from the source (go/ast) on every run; bounded exhaustive: every synthetic method shape with <=3 (thorough: <=4) parameters over a pool "
          "of 33 parameter types x exported/unexported through the real IsValidMethod, every route of <=3 (thorough: <=4) segments over an 8-segment "
          "alphabet against a fixed two-entry collection (HasMethod, call with and without completion function); then op lines from one PRNG "
          "(VERIF_SEED): every method of the zoo (8 entry types, ~75 methods: unexported, 1-5 parameters, context by value / "
@@ -53,6 +58,8 @@ CONFIG = dict(
         "hand-written model lean/Cell2v/Model/ApiMap.lean tied to the Go code by the differential run of this check (harness/c13 + modeld_c13)",
         "reflect facts (Kind, Implements(IContext), AssignableTo(HandlerCBFunc), method sets, PkgPath) are taken from the harness dump of the real reflect.Method values",
         "serializers (encoding/json, protobuf) abstracted as a function (declared type, payload) -> value | error, evaluated by the harness independently of the code under test and passed as hints",
+        "sync.RWMutex gives mutual exclusion, so a body that looks up and inserts inside one write-locked section is one atomic step (the section structure itself is "
+        "extracted from api_registry.go by harness/c13/extract into Gen/C13Registry.lean and checked by theorem registry_add_collection_atomic)",
         "harness canonicalisation (map iteration sorted, error texts dropped, completions tagged by who issued them, panics caught by recover and mapped to 'panic')",
     ],
     assumptions=[
